@@ -5,8 +5,22 @@ Record tinfo := {
   ti_b : test;              (* behaviour *)
   ti_class : str;           (* module.Class *)
   ti_name : str;            (* method name *)
-  ti_msgs : list (nat * nat * str)   (* (phase, k) -> exception message raised there *)
+  ti_msgs : list (nat * nat * str);  (* (phase, k) -> exception message raised there *)
+  ti_doc : option str       (* a doctest case: its dotted doctest name (module[.object]); class and name then come from it *)
 }.
+
+(* parse_doc_test_case: the name is the last dotted component, suite and class are what precedes it *)
+Fixpoint split_last_dot (s : str) : str * str :=
+  match s with
+  | [] => ([], [])
+  | c :: r => let '(a, b) := split_last_dot r in
+              if N.eqb c 46 then (if existsb (N.eqb 46) r then (c :: a, b) else ([], r))
+              else (if existsb (N.eqb 46) r then (c :: a, b) else ([], c :: b))
+  end.
+Definition eff_class (ti : tinfo) : str :=
+  match ti_doc ti with Some d => fst (split_last_dot d) | None => ti_class ti end.
+Definition eff_name (ti : tinfo) : str :=
+  match ti_doc ti with Some d => snd (split_last_dot d) | None => ti_name ti end.
 Record psuite := {
   p_name : str; p_tests : nat; p_errors : nat; p_failures : nat;
   p_cases : list (str * str * option (nat * str * str))   (* classname, name, child: (0 failure | 1 error, message attr, text) *)
@@ -34,14 +48,14 @@ Fixpoint xevents (ti : tinfo) (ps : list pev) (ph k : nat) : list xevent :=
   | [] => []
   | PPhase ph' k' :: r => xevents ti r ph' k'
   | PRes res j :: r =>
-    let mk kind name msg := {| x_suite := ti_class ti; x_class := ti_class ti; x_name := name; x_kind := kind; x_msg := msg |} in
+    let mk kind name msg := {| x_suite := eff_class ti; x_class := eff_class ti; x_name := name; x_kind := kind; x_msg := msg |} in
     (match res with
-     | RSuccess | RXF => [mk XPass (ti_name ti) []]
-     | RFail => [mk XFail (ti_name ti) (msg_at ti ph k)]
-     | RErr => [mk XErr (ti_name ti) (msg_at ti ph k)]
-     | RSubFail => [mk XFail (ti_name ti ++ sub_suffix j) (msg_at ti 2 j)]
-     | RSubErr => [mk XErr (ti_name ti ++ sub_suffix j) (msg_at ti 2 j)]
-     | RUS => [mk XErr (ti_name ti) []]
+     | RSuccess | RXF => [mk XPass (eff_name ti) []]
+     | RFail => [mk XFail (eff_name ti) (msg_at ti ph k)]
+     | RErr => [mk XErr (eff_name ti) (msg_at ti ph k)]
+     | RSubFail => [mk XFail (eff_name ti ++ sub_suffix j) (msg_at ti 2 j)]
+     | RSubErr => [mk XErr (eff_name ti ++ sub_suffix j) (msg_at ti 2 j)]
+     | RUS => [mk XErr (eff_name ti) []]
      | RSkip | RSubSkip => []
      end) ++ xevents ti r ph k
   | _ :: r => xevents ti r ph k
